@@ -667,6 +667,45 @@ def run(index, rep, tier):
                               "%s keeps `self.%s` between calls and can reach `%s` without having handed it this call's `**%s`: configure() sets every option it is not given back to its default, so skipping it (for instance when no option is passed) leaves the settings of the PREVIOUS call in force - after a consensus tree was asked for with support as percentages, a plain summarize_splits_on_tree(tree) labels the nodes with 75.0 instead of 0.75" % (fi.qualname, a, norm(node_calls(u)[0])[:50] if node_calls(u) else "", kw))
         rep.floor("R05.14", "uses of components kept between calls in methods taking per-call options", 1, n14)
 
+    # ---- R05.15 an order statistic is read at an index inside the sample
+    with rep.section("R05.15"):
+        rep.rule("R05.15", "an order statistic is read at an index inside the sample: in calculate.statistics a subscript whose index has the form `int(round(n * q)) - 1` with a constant fraction q below one half is dominated by a test that refuses the negative case (`idx < 0`, `idx >= 0` ...) - a negative index does not fail, it wraps around, and the 5% quantile of a small sample comes out as its MAXIMUM")
+        n15 = 0
+        for fi in index.functions_in_module("dendropy.calculate.statistics"):
+            subs_idx = {}
+            for st in walk_no_nested(fi.node):
+                if isinstance(st, ast.Assign) and len(st.targets) == 1 and isinstance(st.targets[0], ast.Name) and isinstance(st.value, ast.BinOp) and isinstance(st.value.op, ast.Sub) and const_value(st.value.right, None) == 1 \
+                        and any(isinstance(x, ast.Call) and call_name(x) in ("int", "round", "floor") for x in ast.walk(st.value.left)):
+                    # only the form whose value is decidable here: a count times a constant fraction below one half rounds to 0 for a small count
+                    fr = [x for x in ast.walk(st.value.left) if isinstance(x, ast.BinOp) and isinstance(x.op, ast.Mult) and any(isinstance(o, ast.Constant) and isinstance(o.value, float) and 0 < o.value < 0.5 for o in (x.left, x.right))]
+                    if fr:
+                        subs_idx[st.targets[0].id] = st
+            if not subs_idx:
+                continue
+            g = cfg_of(fi)
+            for x in ast.walk(fi.node):
+                if isinstance(x, ast.Subscript) and isinstance(x.slice, ast.Name) and x.slice.id in subs_idx and isinstance(x.ctx, ast.Load):
+                    nm = x.slice.id
+                    nd = node_of_ast(g, x)
+                    if nd is None:
+                        continue
+                    n15 += 1
+
+                    def nonneg_edge(a_, lab, b_, nm=nm):
+                        # follow only edges on which the index may still be negative
+                        if a_.kind == "test" and isinstance(a_.ast, ast.Compare) and len(a_.ast.ops) == 1 and norm(a_.ast.left) == nm and isinstance(a_.ast.comparators[0], ast.Constant) and isinstance(a_.ast.comparators[0].value, (int, float)):
+                            c_ = a_.ast.comparators[0].value
+                            op = type(a_.ast.ops[0])
+                            sat = {ast.Lt: -1 < c_, ast.LtE: -1 <= c_, ast.Gt: -1 > c_, ast.GtE: -1 >= c_, ast.Eq: -1 == c_, ast.NotEq: -1 != c_}.get(op)
+                            if sat is not None:
+                                return sat if lab == "t" else (not sat) if lab == "f" else True
+                        return lab != "e"
+                    seen = g.reach([g.entry], follow_exc=False, edge_ok=nonneg_edge)
+                    # the smallest index the formula can give for a non-empty sample is -1 (n * q rounds to 0)
+                    rep.check(nd not in seen, "R05.15", fi.qualname, "`%s` can be read at index -1" % norm(x), fn_where(fi, x), "%s: `%s` only with a non-negative index" % (fi.name, norm(x)),
+                              "%s reads `%s` where `%s = %s` can be -1 (the product rounds to 0 for a small sample) and no test on the way refuses that: Python wraps a negative index around, so the lower quantile of fewer than ten values is their largest value - the summary of a split seen in a handful of trees reports a 5%% bound above its 95%% bound" % (fi.qualname, norm(x), nm, norm(subs_idx[nm].value)[:40]))
+        rep.floor("R05.15", "order statistics read at a computed index", 1, n15)
+
 
 def _weight_rule_text(fi, name):
     """Normalised text of the if/else that defines the per-tree weight."""
